@@ -41,11 +41,13 @@ func processReadBuf(rb []byte, searchDepth int) []byte {
 	return prb
 }
 
-func (c *Channel) read() {
+func (c *Channel) read(readLoopDone chan struct{}) {
 	defer func() {
 		util.Yield("chan.read.exit")
 
 		c.readLoopExited.Store(true)
+
+		close(readLoopDone)
 	}()
 
 	for {
